@@ -15,7 +15,9 @@ with its squared length.
 * 3-D (`_compute_geometry_3d`): sub-triangles about the node average of each face, sub-tetrahedra
   about the edge-weighted average of the face centres; face centre / area use
   `|sub_normal| = |sub_normal · N| / |N|`, which is exact for planar faces.
-* the cell-by-cell content of `TensorGrid._create_2d_grid` (`tensorCells`) and of a tetrahedron.
+* the cell-by-cell content of `TensorGrid._create_2d_grid` / `_create_3d_grid` (`tensorCells`, `tensorCells3`:
+  node order and sign of every face of every cell) and a tetrahedron (`tetCell`).
+* the specification vocabulary of the theorems (`Closed`, `EdgePaired`, `PlanarStar`, `NodesPlanar`, …) at the end.
 -/
 namespace PorepyVerif.C19
 
@@ -414,5 +416,33 @@ def PlanarStar (cell : Cell3) : Prop :=
     0 ≤ (subN (mean3 f.1) e).dot (faceN f.1) ∧
     P3.smul ((faceN f.1).dot (faceN f.1)) (subN (mean3 f.1) e)
       = P3.smul ((subN (mean3 f.1) e).dot (faceN f.1)) (faceN f.1)
+
+/-- all nodes of every face lie in the plane through the node average, perpendicular to the face normal -/
+def NodesPlanar (cell : Cell3) : Prop :=
+  ∀ f ∈ cell, ∀ v ∈ f.1, (v.sub (mean3 f.1)).dot (faceN f.1) = 0
+
+/-- first moment of the cell as computed: `V · tc + Σ tet_volume · 3/4 · (sub_centroid − tc)`;
+    the cell centre is `cellMom3 / cellVol3` -/
+def cellMom3 (tc : P3) (cell : Cell3) : P3 := (P3.smul (cellVol3 tc cell) tc).add (cellRelMom3 tc cell)
+
+/-! ### 3-D: `TensorGrid._create_3d_grid`, cell by cell -/
+
+/-- faces (west, east, south, north, top = low z, bottom = high z) of the cell
+    `[x0,x1] × [y0,y1] × [z0,z1]` with the node order and signs of the constructor -/
+def tensorCell3 (x0 x1 y0 y1 z0 z1 : Rat) : Cell3 :=
+  [([⟨x0, y0, z0⟩, ⟨x0, y1, z0⟩, ⟨x0, y1, z1⟩, ⟨x0, y0, z1⟩], -1),
+   ([⟨x1, y0, z0⟩, ⟨x1, y1, z0⟩, ⟨x1, y1, z1⟩, ⟨x1, y0, z1⟩], 1),
+   ([⟨x0, y0, z0⟩, ⟨x0, y0, z1⟩, ⟨x1, y0, z1⟩, ⟨x1, y0, z0⟩], -1),
+   ([⟨x0, y1, z0⟩, ⟨x0, y1, z1⟩, ⟨x1, y1, z1⟩, ⟨x1, y1, z0⟩], 1),
+   ([⟨x0, y0, z0⟩, ⟨x1, y0, z0⟩, ⟨x1, y1, z0⟩, ⟨x0, y1, z0⟩], -1),
+   ([⟨x0, y0, z1⟩, ⟨x1, y0, z1⟩, ⟨x1, y1, z1⟩, ⟨x0, y1, z1⟩], 1)]
+
+/-- cells in the constructor's order (x fastest, then y, then z) -/
+def tensorCells3 (xs ys zs : List Rat) : List Cell3 :=
+  (pairs zs).flatMap (fun z => (pairs ys).flatMap (fun y =>
+    (pairs xs).map (fun x => tensorCell3 x.1 x.2 y.1 y.2 z.1 z.2)))
+
+def tensorVolumeSum3 (xs ys zs : List Rat) : Rat :=
+  sumf (fun c => cellVol3 (tempCenter3 c) c) (tensorCells3 xs ys zs)
 
 end PorepyVerif.C19
